@@ -45,6 +45,16 @@ def oracle(case, obs):
     if life.pause_carried_out_after_play(tr) is not None:
         # finding D29 (property C05): also the reason why a fault in on_pausing / on_paused is then reported to nobody
         return {'signature': 'pause_carried_out_although_withdrawn', 'kind': 'D29', 'context': scenario(case)}
+    if f and obs['final'] is not None:
+        # whatever the fault and whoever made the failing call: the only exceptions that may end the process or resolve a control
+        # future are the ones user code raised (the injected fault, a step / callback fault, a fail() request) — never an error
+        # of plumpy's own bookkeeping (AssertionError of the super-check, InvalidStateError of a future, ...)
+        fin0 = obs['final']
+        if fin0['state'] == 'excepted' and isinstance(fin0['future'], list) and fin0['future'][0] == 'exn' and fin0['future'][1][0] == 'py':
+            return {'signature': 'excepted_with_an_internal_error', 'kind': str(fin0['future'][1][1]), 'context': scenario(case)}
+        for a in fin0['actions']:
+            if a[0] == 'exn' and a[1][0] == 'py':
+                return {'signature': 'control_future_resolved_with_an_internal_error', 'kind': str(a[1][1]), 'context': scenario(case)}
     if f:
         fired = fault_fired(case, obs)
     else:
